@@ -51,35 +51,46 @@ def scanString : List Char → List Char × List Char × Bool
   | c :: cs => let r := scanString cs; (c :: r.1, r.2.1, r.2.2)
   | [] => ([], [], false)
 
+/-- optional minus sign -/
+def numSign : List Char → List Char × List Char
+  | '-' :: r => (['-'], r)
+  | r => ([], r)
+
+/-- `0|[1-9][0-9]*` -/
+def numInt : List Char → Option (List Char × List Char)
+  | '0' :: r => some (['0'], r)
+  | c :: r => if isDigit19C c then let d := takeWhileC isDigitC r; some (c :: d.1, d.2) else none
+  | [] => none
+
+/-- `(\.[0-9]+)?`: taken only when at least one digit follows the point -/
+def numFrac : List Char → List Char × List Char
+  | '.' :: r =>
+    let d := takeWhileC isDigitC r
+    if d.1.isEmpty then ([], '.' :: r) else ('.' :: d.1, d.2)
+  | cs => ([], cs)
+
+/-- `([eE][+-]?[0-9]+)?`: taken only when at least one digit follows -/
+def numExp : List Char → List Char × List Char
+  | e :: r =>
+    if e == 'e' || e == 'E' then
+      let sg := match r with
+        | '+' :: r'' => (['+'], r'')
+        | '-' :: r'' => (['-'], r'')
+        | r'' => ([], r'')
+      let d := takeWhileC isDigitC sg.2
+      if d.1.isEmpty then ([], e :: r) else (e :: sg.1 ++ d.1, d.2)
+    else ([], e :: r)
+  | [] => ([], [])
+
 /-- longest match of `-?(0|[1-9][0-9]*)(\.[0-9]+)?([eE][+-]?[0-9]+)?`; `none` if no prefix matches -/
 def scanNumber (cs : List Char) : Option (List Char × List Char) :=
-  let (sign, cs1) := match cs with
-    | '-' :: r => (['-'], r)
-    | r => ([], r)
-  let intp : Option (List Char × List Char) := match cs1 with
-    | '0' :: r => some (['0'], r)
-    | c :: r => if isDigit19C c then let d := takeWhileC isDigitC r; some (c :: d.1, d.2) else none
-    | [] => none
-  match intp with
+  let s := numSign cs
+  match numInt s.2 with
   | none => none
-  | some (i, cs2) =>
-    let (frac, cs3) := match cs2 with
-      | '.' :: r =>
-        let d := takeWhileC isDigitC r
-        if d.1.isEmpty then ([], cs2) else ('.' :: d.1, d.2)
-      | _ => ([], cs2)
-    let (ex, cs4) := match cs3 with
-      | e :: r =>
-        if e == 'e' || e == 'E' then
-          let (sg, r') := match r with
-            | '+' :: r'' => (['+'], r'')
-            | '-' :: r'' => (['-'], r'')
-            | r'' => ([], r'')
-          let d := takeWhileC isDigitC r'
-          if d.1.isEmpty then ([], cs3) else (e :: sg ++ d.1, d.2)
-        else ([], cs3)
-      | [] => ([], cs3)
-    some (sign ++ i ++ frac ++ ex, cs4)
+  | some i =>
+    let f := numFrac i.2
+    let e := numExp f.2
+    some (s.1 ++ i.1 ++ f.1 ++ e.1, e.2)
 
 /-- one lexer step at a non-empty input: the token kind (`Tok.error` with the diagnostic kind for a
 lexing error), the characters consumed and the rest -/
